@@ -1,0 +1,105 @@
+//! Virtual clock for verification harnesses (only compiled with `--cfg libp2p_verif`).
+//!
+//! `Instant` mirrors the API of `web_time::Instant` but reads a thread-local virtual time that
+//! only moves when the harness calls [`advance`] / [`set`]. Crates opt in by importing this
+//! type instead of `web_time::Instant` under `cfg(libp2p_verif)`.
+
+use std::{
+    cell::Cell,
+    ops::{Add, AddAssign, Sub, SubAssign},
+    time::Duration,
+};
+
+/// Virtual time starts this far after the (virtual) epoch so that `Instant - Duration` is
+/// well-defined for any realistic duration.
+const START: Duration = Duration::from_secs(10 * 365 * 24 * 3600);
+
+thread_local! {
+    static NOW: Cell<Duration> = const { Cell::new(START) };
+}
+
+/// Move this thread's virtual clock forward.
+pub fn advance(by: Duration) {
+    NOW.with(|n| n.set(n.get() + by));
+}
+
+/// Set this thread's virtual clock to `START + since_start`.
+pub fn set(since_start: Duration) {
+    NOW.with(|n| n.set(START + since_start));
+}
+
+/// Virtual time elapsed since the start value.
+pub fn since_start() -> Duration {
+    NOW.with(|n| n.get()) - START
+}
+
+#[derive(Copy, Clone, Debug, PartialEq, Eq, PartialOrd, Ord, Hash)]
+pub struct Instant(Duration);
+
+impl Instant {
+    pub fn now() -> Instant {
+        Instant(NOW.with(|n| n.get()))
+    }
+
+    pub fn elapsed(&self) -> Duration {
+        Instant::now().saturating_duration_since(*self)
+    }
+
+    pub fn duration_since(&self, earlier: Instant) -> Duration {
+        self.saturating_duration_since(earlier)
+    }
+
+    pub fn checked_duration_since(&self, earlier: Instant) -> Option<Duration> {
+        self.0.checked_sub(earlier.0)
+    }
+
+    pub fn saturating_duration_since(&self, earlier: Instant) -> Duration {
+        self.0.saturating_sub(earlier.0)
+    }
+
+    pub fn checked_add(&self, d: Duration) -> Option<Instant> {
+        self.0.checked_add(d).map(Instant)
+    }
+
+    pub fn checked_sub(&self, d: Duration) -> Option<Instant> {
+        self.0.checked_sub(d).map(Instant)
+    }
+
+    /// Virtual time of this instant relative to the start value (may be "negative" → zero).
+    pub fn verif_since_start(&self) -> Duration {
+        self.0.saturating_sub(START)
+    }
+}
+
+impl Add<Duration> for Instant {
+    type Output = Instant;
+    fn add(self, d: Duration) -> Instant {
+        Instant(self.0 + d)
+    }
+}
+
+impl AddAssign<Duration> for Instant {
+    fn add_assign(&mut self, d: Duration) {
+        self.0 += d;
+    }
+}
+
+impl Sub<Duration> for Instant {
+    type Output = Instant;
+    fn sub(self, d: Duration) -> Instant {
+        Instant(self.0 - d)
+    }
+}
+
+impl SubAssign<Duration> for Instant {
+    fn sub_assign(&mut self, d: Duration) {
+        self.0 -= d;
+    }
+}
+
+impl Sub<Instant> for Instant {
+    type Output = Duration;
+    fn sub(self, other: Instant) -> Duration {
+        self.saturating_duration_since(other)
+    }
+}
